@@ -138,7 +138,8 @@ Definition taken (st : pstate) (n : string) : bool := mem_str n (map fst (nto st
 
 (* PDDLWriter._get_mangled_name(item).
    [c]      the tables with c_kws = self.pddl_keywords,
-   [hier]   self.problem_kind.has_hierarchical_typing(),
+   [hier]   the condition under which a user type may not be called "object":
+            self.problem_kind.has_hierarchical_typing() or len(self.problem.user_types) > 1   (since 6b472be),
    [pnames] the names for which self.problem.has_name(n) is True (the problem is not edited while the writer lives).
    Result: the name and the new dictionaries; None only when a loop runs out of fuel. *)
 Definition pddl_mangled (c : cfg) (hier : bool) (pnames : list string) (st : pstate) (it : item)
